@@ -355,7 +355,7 @@ type admExpect struct {
 	Status   int
 	Code     int
 	Message  string
-	AfterWS  bool // refusal happens after the WebSocket connection was accepted
+	AfterWS  bool   // refusal happens after the WebSocket connection was accepted
 	Admitted string // handshake | existing
 }
 
